@@ -16,8 +16,8 @@ every fault point" is the `∀ k`.  Helper lemmas: `OV.Lemmas.C20Save`.
 namespace OV.Props.C20
 open OV.C20
 
-/-- **Guard first.**  If an initializer the guard looks at (`deep = false`, the code as it is: main graph only;
-`deep = true`: every graph) has no `const_value`, the call raises `ValueError` and the *whole state* is what it was:
+/-- **Guard first.**  If an initializer the guard looks at (`deep = true`, the code as it is since 1c518f5: every graph of
+`model.graphs()`; `deep = false`: the old scope, main graph only — function bodies are outside the model) has no `const_value`, the call raises `ValueError` and the *whole state* is what it was:
 no file-system call was made (`calls = 0`, empty trace), no file changed, no tensor object or `const_value` touched —
 for every fault plan, path, verbosity and file system. -/
 theorem guard_first (cfg : Cfg) (m : Model) (dir name : String) (verbose : Bool) (fs : FS) (k : Option Nat)
@@ -34,8 +34,8 @@ theorem guard_first (cfg : Cfg) (m : Model) (dir name : String) (verbose : Bool)
 example : ∃ (m : Model) (i : Nat) (n : String), m.sig[i]? = some (n, false) ∧ m.cv[i]? = some none :=
   ⟨{ sig := [("w", false), ("u", false)], cv := [some 0, none], heap := [.mem [1, 2, 3] true] }, 1, "u", rfl, rfl⟩
 
-/-- The property's wording ("refuses a model with uninitialized initializers") for the guard as implemented
-(`deep = false`) is false: an uninitialized initializer of a *sub-graph* is not refused — both files are written and
+/-- The property's wording ("refuses a model with uninitialized initializers") for the guard as it was before 1c518f5
+(`deep = false`; regression statement, not the current code) is false: an uninitialized initializer of a *sub-graph* is not refused — both files are written and
 the initializer is missing from the saved proto.  Witness replayed on the real code (finding C20-D2). -/
 theorem guard_first_all_graphs_refuted :
     ¬ (∀ (m : Model) (dir name : String) (verbose : Bool) (fs : FS) (k : Option Nat) (i : Nat) (n : String) (sub : Bool),
@@ -52,8 +52,9 @@ theorem guard_first_all_graphs_witness :
     r.res = .ok () ∧ r.st.fs = [("m.data", .data []), ("m", .proto [])] := by
   decide +kernel
 
-/-- **Model unchanged, every fault point** (`_partial`: hypothesis forced by the proof, see
-`model_unchanged_full_refuted`).  If no tensor object of the model is an `ExternalTensor` living in the destination
+/-- **Model unchanged, every fault point** (`_partial`: a configuration-independent lemma — it holds for every `cfg`, also
+without the second guard, at the price of the hypothesis below, which is forced there: `model_unchanged_full_refuted`; for the
+code as it is `model_unchanged` replaces the hypothesis by the guard's refusal).  If no tensor object of the model is an `ExternalTensor` living in the destination
 data file `dir/name.data`, then after the call — successful or failed at *any* file-system call `k` — every
 initializer's `const_value` is the same object as before and every original tensor object is unchanged. -/
 theorem model_unchanged_partial (cfg : Cfg) (m : Model) (dir name : String) (verbose : Bool) (fs : FS) (k : Option Nat)
@@ -97,9 +98,11 @@ example : ∃ (m : Model), m.heap ≠ [] ∧ ∀ (id : Nat) (f : String) (o l : 
     | n + 2, h => simp at h⟩
 
 /-- **Model unchanged, every fault point, no hypothesis on where tensors live** — for the function *with the second
-guard* (`cfg.refuse = true`: a model one of whose initializers is an `ExternalTensor` stored in `dir/name.data` is refused
-before anything is written; proposed fix `proposed_fixes/ready/C20-D1.diff`).  For every model all of whose tensor objects
-belong to some initializer, every file system, path, verbosity and every fault plan `k` (and the fault-free run): after
+guard* (`cfg.refuse = true`, the code as it is since 56a0c3c: a model one of whose initializers is an `ExternalTensor` stored in
+`dir/name.data` is refused before anything is written).  **Remaining hypothesis `howned`**: every tensor object of the model's
+heap belongs to some initializer (`∀ id < heap.length, some id ∈ m.cv`) — a well-formedness condition of the *model state*, not of
+the code: an unowned object stored in the destination file is never touched by the save, but the invariant framework cannot
+tell which ids the save was given, so the theorem is stated for heaps without garbage.  For every such model, every file system, path, verbosity and every fault plan `k` (and the fault-free run): after
 the call every `const_value` is the same object as before and every tensor object is unchanged.  Without the second
 guard the statement is false (`model_unchanged_full_refuted`). -/
 theorem model_unchanged (cfg : Cfg) (hr : cfg.refuse = true) (m : Model) (dir name : String) (verbose : Bool) (fs : FS)
@@ -165,8 +168,7 @@ example :
     r.res = .error .valueError ∧ r.st.calls = 0 ∧ r.st.fs = fs ∧ r.model m = m := by
   decide +kernel
 
-/-- **Tensor names** — with the name-restoring `finally` (`cfg.keepNames = true`; proposed fix
-`proposed_fixes/ready/C20-D4.diff`) the `name` of every tensor object after the call is what it was, for every model, file
+/-- **Tensor names** — with the name-restoring `finally` (`cfg.keepNames = true`, the code as it is since 657db39) the `name` of every tensor object after the call is what it was, for every model, file
 system and fault plan (onnx_ir's serializer renames each visited tensor after its initializer: `renameAll`). -/
 theorem tensor_names_restored (cfg : Cfg) (hkn : cfg.keepNames = true) (m : Model) (dir name : String) (verbose : Bool)
     (fs : FS) (k : Option Nat) :
@@ -640,8 +642,11 @@ example :
 file system after the call *is* the file system before it, or the trace contains an open-for-write call `openW f` at an
 index `i` that is not the faulted call (`k ≠ some i`) — i.e. some `open(…, "wb")` really succeeded.  The first
 open-for-write of the sequence is the data file's (trace validated by the tie), so **a fault at or before the
-`open(<name>.data, "wb")` call leaves every file untouched**; after it, only the two destination files can differ
-(`fs_frame`) and nothing more is claimed about them (`fault_leaves_no_claim`). -/
+`open(<name>.data, "wb")` call leaves every file untouched**.  This is a deliberately weak disjunction: once some
+open-for-write has succeeded, the theorem says NOTHING about the content of `dir/name.data` and `dir/name` (truncated, half
+written, old model file beside a new data file — all possible; nothing is atomic in the real code); what is still claimed then
+is only `fs_frame` (every other file untouched) and the in-memory theorems.  After a *normal return* the content is fixed by
+`roundtrip_on_success`. -/
 theorem fs_unchanged_unless_opened (cfg : Cfg) (m : Model) (dir name : String) (verbose : Bool) (fs : FS) (k : Option Nat) :
     (runSave cfg m dir name verbose fs k).st.fs = fs ∨
     ∃ i f, (runSave cfg m dir name verbose fs k).st.trace[i]? = some (Op.openW f) ∧ k ≠ some i := by
@@ -677,8 +682,8 @@ example :
 
 /-- (Function before 56a0c3c, `refuse := false`.) A complete concrete round trip through the whole model (guard, classification with the 256-byte threshold, an
 already-external tensor living in the destination file, sort, write, swap, serialize, load): every initializer loads
-back with its bytes.  (An instance, checked by evaluation — the ∀-statement for the whole pipeline is validated by the
-tie on every generated case, not proved.) -/
+back with its bytes.  (An instance inside the region the current code refuses, checked by evaluation — the ∀-statement for the whole
+pipeline is `roundtrip` / `roundtrip_outside_destination`, which are proved.) -/
 theorem roundtrip_instance :
     let m : Model := { sig := [("s", false), ("d", false), ("b", true)], cv := [some 0, some 1, some 2],
                        heap := [.mem [1, 2, 3] true, .ext "m.data" 0 300 true, .mem (List.replicate 260 9) false] }
@@ -692,7 +697,7 @@ theorem roundtrip_instance :
 
 /-- **Any history of saves leaves the model and the data behind it intact** (invariant by induction over the history).
 The function with its second guard (`cfg.refuse = true`, the code as it is); a model all of whose tensor objects belong to an
-initializer, each initializer readable and denoting `bs[i]`.  Run *any* list of calls on this same model object — any
+initializer (`howned`, inherited from `model_unchanged`: heaps without unowned objects) with `All2 (InitR …)`: each initializer readable and denoting `bs[i]`.  Run *any* list of calls on this same model object — any
 destinations, verbosities and **any fault plan per call** (calls that succeed, calls refused by a guard, calls dying at their
 `k`-th file-system call, in any order).  **For the code as it is (`cfg.refuseModel = true`, guard of 3d20cf2) there is no further
 hypothesis**: a call whose *model file* `dir/name` is a file some tensor is stored in is refused and touches nothing.  For the
